@@ -259,6 +259,138 @@ def strict_run(t):
             "n_access": len(rec.events)}
 
 
+# --------------------------------------------------------------------------- list vs single (C08/C13)
+def _bits(a):
+    return np.ascontiguousarray(np.asarray(a, dtype=np.float64)).view(np.uint64)
+
+
+def _same(a, b):
+    a = np.asarray(a, dtype=np.float64)
+    b = np.asarray(b, dtype=np.float64)
+    return a.shape == b.shape and np.array_equal(_bits(a), _bits(b))
+
+
+def _call(f):
+    try:
+        return ("ok", f())
+    except BaseException as ex:  # noqa: BLE001
+        if isinstance(ex, (KeyboardInterrupt, SystemExit, Timeout)):
+            raise
+        return (errcode(ex), None)
+
+
+@op
+def list_vs_single(t):
+    """solve / evaluate / raytrace a list and the same items one by one; compare bit-for-bit
+    (results, gradients, vzero) and exception classes.  Optional: thread count, chunk size,
+    repetitions, concurrent callers."""
+    import numba
+    if not INTERP:
+        if t.get("threads"):
+            numba.set_num_threads(int(t["threads"]))
+        if "chunk" in t:
+            numba.set_parallel_chunksize(int(t["chunk"]))
+    e = _eik(t)
+    srcs = t["sources"]
+    grad = bool(t.get("grad", True))
+    kw = dict(nsweep=t.get("nsweep", 2), return_gradient=grad)
+    diffs = []
+
+    def one_round(tag):
+        st_l, lst = _call(lambda: e.solve(srcs, **kw))
+        singles = [_call(lambda s=s: e.solve(s, **kw)) for s in srcs]
+        first_err = next((st for st, _ in singles if st != "ok"), "ok")
+        if st_l != first_err:
+            diffs.append((tag, "solve-status", st_l, first_err))
+            return None
+        if st_l != "ok":
+            return None
+        for k, (g, (_, s1)) in enumerate(zip(lst, singles)):
+            if not (_same(g.grid, s1.grid) and C_f2b(g._vzero) == C_f2b(s1._vzero)
+                    and np.array_equal(np.asarray(g.source, float), np.asarray(s1.source, float))):
+                diffs.append((tag, "solve", k, float(np.nanmax(np.abs(np.asarray(g.grid) - np.asarray(s1.grid))))))
+            if grad and not _same(g._gradient, s1._gradient):
+                diffs.append((tag, "gradient", k))
+        g0 = lst[0]
+        if "points" in t:
+            pts = t["points"]
+            fv = {"fill_value": t["fill_value"]} if "fill_value" in t else {}
+            st_pl, pl = _call(lambda: g0(pts, **fv))
+            ps = [_call(lambda p=p: g0(p, **fv)) for p in pts]
+            if st_pl != "ok" or any(s != "ok" for s, _ in ps):
+                diffs.append((tag, "call-status", st_pl))
+            elif not _same(pl, [v for _, v in ps]):
+                diffs.append((tag, "call", [int(i) for i in np.nonzero(_bits(pl) != _bits([v for _, v in ps]))[0][:5]]))
+            st_el, el = _call(lambda: e(pts, **fv))
+            es = [_call(lambda p=p: e(p, **fv)) for p in pts]
+            if st_el != "ok" or not _same(el, [v for _, v in es]):
+                diffs.append((tag, "model-call", st_el))
+        if grad and "ray_points" in t:
+            rk = dict(t.get("ray_kw", {}))
+            st_rl, rl = _call(lambda: g0.raytrace(t["ray_points"], **rk))
+            rs = [_call(lambda p=p: g0.raytrace(p, **rk)) for p in t["ray_points"]]
+            first = next((st for st, _ in rs if st != "ok"), "ok")
+            if st_rl != first:
+                diffs.append((tag, "ray-status", st_rl, first))
+            elif st_rl == "ok":
+                for k, (a, (_, b)) in enumerate(zip(rl, rs)):
+                    if not _same(a, b):
+                        diffs.append((tag, "ray", k))
+        return lst
+
+    for rep in range(int(t.get("repeat", 1))):
+        one_round(f"rep{rep}")
+    if t.get("concurrent") and not INTERP:
+        from concurrent.futures import ThreadPoolExecutor
+        ref = _call(lambda: e.solve(srcs, **kw))
+        with ThreadPoolExecutor(max_workers=int(t["concurrent"])) as ex:
+            futs = [ex.submit(lambda: _call(lambda: e.solve(srcs, **kw))) for _ in range(int(t["concurrent"]) * 2)]
+            outs = [f.result() for f in futs]
+        for k, (st, lst) in enumerate(outs):
+            if st != ref[0]:
+                diffs.append(("concurrent", "status", st, ref[0]))
+            elif st == "ok":
+                for a, b in zip(lst, ref[1]):
+                    if not (_same(a.grid, b.grid) and (not grad or _same(a._gradient, b._gradient))):
+                        diffs.append(("concurrent", "solve", k))
+                        break
+    return {"diffs": diffs[:10], "n_diffs": len(diffs), "threads": (numba.get_num_threads() if not INTERP else 1),
+            "layer": (numba.threading_layer() if not INTERP and len(srcs) > 1 else "n/a")}
+
+
+def C_f2b(x):
+    import struct
+    return struct.unpack("<Q", struct.pack("<d", float(x)))[0]
+
+
+@op
+def api_request(t):
+    """one public-API request; returns the exception class or a digest of what came back
+    (used for the error-reporting property C13)."""
+    import numba
+    if not INTERP and t.get("threads"):
+        numba.set_num_threads(int(t["threads"]))
+    e = _eik(t)
+    kind = t["kind"]
+    if kind == "solve":
+        r = e.solve(t["sources"], **t.get("kw", {}))
+        gs = r if isinstance(r, list) else [r]
+        return {"n": len(gs), "finite": bool(all(np.isfinite(g.grid).all() for g in gs)),
+                "sane": bool(all(g.grid.min() >= 0 and g.grid.max() < 1e4 for g in gs))}
+    g = e.solve(t["source"], return_gradient=bool(t.get("grad", True)))
+    if kind == "raytrace":
+        r = g.raytrace(t["points"], **t.get("kw", {}))
+        rs = r if isinstance(r, list) else [r]
+        return {"n": len(rs), "finite": bool(all(np.isfinite(x).all() for x in rs)),
+                "lens": [int(len(x)) for x in rs],
+                "ends_ok": bool(all(np.allclose(x[-1], p) and np.allclose(x[0], t["source"]) for x, p in
+                                    zip(rs, t["points"] if isinstance(r, list) else [t["points"]])))}
+    if kind == "gradient":
+        gr = g.gradient
+        return {"n": len(gr)}
+    raise KeyError(kind)
+
+
 def run_task(t):
     lim = float(t.get("timeout", 20.0))
     err = np.seterr(all="ignore")
